@@ -111,12 +111,13 @@ class Outcome:
 
 
 class Frame:
-    __slots__ = ("fid", "rec", "body", "subst", "cfg", "fn_id", "depth", "active_loops", "stack", "names")
+    __slots__ = ("fid", "rec", "body", "subst", "cfg", "fn_id", "depth", "active_loops", "stack", "names", "inline_counts")
 
     def __init__(self, fid, rec, body, subst, depth, stack):
         self.fid = fid
         self.rec = rec
         self.names = None
+        self.inline_counts = None
         self.body = body
         self.subst = subst
         self.cfg = cfg_of(body)
@@ -155,6 +156,7 @@ class Executor:
         self.conserved_coeffs = []     # rule option: coefficients c for the loop-invariant candidates "a + c*b keeps its entry value"
         self.prod_attempts = 0
         self.product_step = False      # rule option: try one product step (N * count <= len ...) before recording a possible panic
+        self.merge_returns = not os.environ.get("VERIF_NO_MERGE_RETURNS")      # join the return paths of an inlined helper that has more than two of them
         self.unroll = None             # (loop id, [back-edge states]) while a loop of known length is being expanded
         self.keep_dead_entry_locals = False   # rules that read a local of the entry function at its return
         self.result_facts = None       # fn(trait, method, result symbol name) -> [poly >= 0] assumed about an abstract call's result
@@ -2129,7 +2131,7 @@ class Executor:
                     return False
         return True
 
-    def havoc_like(self, v, name, inv=None, root=None, path=(), top=False):
+    def havoc_like(self, v, name, inv=None, root=None, path=(), top=False, origin=False):
         """fresh unknown value of the same shape (struct / tuple / iterator-adaptor structure kept,
         enum variants forgotten); integer leaves get the interval invariant if one is known."""
         if isinstance(v, IntV):
@@ -2149,14 +2151,18 @@ class Executor:
                 or v.name == "heapless::vec::Vec"))
             if is_struct:
                 return Agg(v.kind, v.name, v.variant,
-                           [self.havoc_like(f, "%s.%d" % (name, i), inv, root, path + (("f", i),)) for i, f in enumerate(v.fields)], v.ty, v.extra)
+                           [self.havoc_like(f, "%s.%d" % (name, i), inv, root, path + (("f", i),), origin=origin) for i, f in enumerate(v.fields)], v.ty, v.extra)
             if v.ty is not None:
                 return self.mk_sym(v.ty, self.fresh(name))
             return Agg(v.kind, v.name, v.variant, [self.havoc_like(f, "%s.%d" % (name, i)) for i, f in enumerate(v.fields)], v.ty, v.extra)
         if isinstance(v, SymV):
+            if origin or (v.ty is not None and v.ty.get("k") == "param"):
+                # an opaque object changed by a call stays "the same object, later": `colors` becomes `colors'#k`
+                base = v.name.split("#")[0]
+                return SymV(v.ty, self.fresh(base if base.endswith("'") else base + "'"))
             return SymV(v.ty, self.fresh(name))
         if isinstance(v, ITE):
-            return self.havoc_like(v.a, name, inv, root, path)
+            return self.havoc_like(v.a, name, inv, root, path, origin=origin)
         if isinstance(v, Ptr):
             # a pointer the loop re-assigns (e.g. `rest = tail`) is unknown at the loop head: an opaque reference to
             # an object of the same type (temporaries re-borrowed in every iteration are written before they are read)
@@ -2445,6 +2451,36 @@ class Executor:
             # several event-free return paths of a helper: merge them (if-then-else)
             ms, v = self.merge_states([s2 for s2, _ in res], [x for _, x in res])
             return [(ms, v)]
+        cnts = getattr(fr, "inline_counts", None)
+        if cnts is None:
+            cnts = fr.inline_counts = {}
+        cnts[rec["id"]] = cnts.get(rec["id"], 0) + 1
+        if len(res) > 2 and not self.no_merge and self.merge_returns and cnts[rec["id"]] >= 3:
+            # a helper inlined repeatedly by one caller (third call site onwards on a path), with several return paths
+            # that did something and hand back the *same* outcome (an early
+            # `return Ok(())` next to tail-returned results of hardware calls): the paths with the same result variant
+            # are joined like any other control-flow join, else every call site multiplies the paths of its caller
+            # (a helper called once per data pin: 3^16). Different variants (Ok / Err) stay separate paths, and the
+            # events stay apart as alternatives of the trace.
+            split = []
+            for s2, v in res:
+                split.extend(self.split_result(s2, v))
+            groups, order = {}, []
+            for s2, v in split:
+                k = (s2.lineage, v.name, v.variant) if isinstance(v, Agg) and v.kind == "adt" and v.variant is not None else ("single", id(s2))
+                if k not in groups:
+                    groups[k] = []
+                    order.append(k)
+                groups[k].append((s2, v))
+            if any(len(g) >= 3 for g in groups.values()):
+                out = []
+                for k in order:
+                    g = groups[k]
+                    if len(g) < 3:
+                        out.extend(g)
+                    else:
+                        out.append(self.merge_states([s2 for s2, _ in g], [x for _, x in g]))
+                return out
         return res
 
     def call_fn_value(self, st, fr, r, args, dest_ty, span):
@@ -2507,7 +2543,11 @@ class Executor:
             if a.pty is None and a.root not in st.mem:
                 return
             cur = self.read(st, a.root, a.path, a.pty)
-            new = self.havoc_like(cur, why)
+            if isinstance(cur, Ptr):
+                # `&mut &mut T`: the callee can change the T behind the inner reference
+                self._havoc_reach(st, cur, why, depth + 1)
+                return
+            new = self.havoc_like(cur, why, origin=True)
             self.write(st, a.root, a.path, new, a.pty)
         elif isinstance(a, Agg):
             for f in a.fields:
